@@ -255,6 +255,8 @@ impl MainEvent {
         let mut pwb_chunks_map: HashMap<_, Vec<_>> = HashMap::new();
         // Wire banks seen so far.
         let mut wire_banks: Vec<Adc32BankName> = Vec::new();
+        // Pads seen so far.
+        let mut pads_seen = [[false; TPC_PAD_ROWS]; TPC_PAD_COLUMNS];
 
         for (bank_name, data_slice) in banks {
             match MainEventBankName::try_from(bank_name)? {
@@ -344,24 +346,28 @@ impl MainEvent {
                         usize::from(pad_position.column),
                         usize::from(pad_position.row),
                     );
-                    if pad_signals[pad_index.0][pad_index.1].is_some() {
+                    // A waveform that is not longer than the delay leaves its
+                    // signal slot empty, so duplicates have to be tracked
+                    // separately.
+                    if pads_seen[pad_index.0][pad_index.1] {
                         return Err(TryMainEventFromDataBanksError::DuplicatePadSignal {
                             position: pad_position,
                         });
-                    } else {
-                        let baseline = try_pad_baseline(run_number, pad_position)?;
-                        let gain = try_pad_gain(run_number, pad_position)?;
-                        let delay = try_pad_delay(run_number)?;
+                    }
+                    pads_seen[pad_index.0][pad_index.1] = true;
 
-                        let signal: Vec<_> = waveform
-                            .iter()
-                            .skip(delay)
-                            // Convert to i32 to avoid overflow
-                            .map(|&v| f64::from(i32::from(v) - i32::from(baseline)) * gain)
-                            .collect();
-                        if !signal.is_empty() {
-                            pad_signals[pad_index.0][pad_index.1] = Some(signal);
-                        }
+                    let baseline = try_pad_baseline(run_number, pad_position)?;
+                    let gain = try_pad_gain(run_number, pad_position)?;
+                    let delay = try_pad_delay(run_number)?;
+
+                    let signal: Vec<_> = waveform
+                        .iter()
+                        .skip(delay)
+                        // Convert to i32 to avoid overflow
+                        .map(|&v| f64::from(i32::from(v) - i32::from(baseline)) * gain)
+                        .collect();
+                    if !signal.is_empty() {
+                        pad_signals[pad_index.0][pad_index.1] = Some(signal);
                     }
                 }
             }
